@@ -44,6 +44,7 @@ Judge(s, e) ==
        ELSE IF o.rt_dev > a.tol THEN "roundtrip.not_the_original_value"
        ELSE IF ~o.order_ok THEN "bracket.bubble_above_dew"
        ELSE IF o.single_dev > a.tol THEN "single.not_the_saturation_value"
+       ELSE IF o.atm_dev > a.tol THEN "roundtrip.from_one_atmosphere_not_the_original_value"
        ELSE IF o.scale_dev > a.tol THEN "composition.depends_on_scale"
        ELSE IF o.perm_dev > a.tol THEN "composition.depends_on_order"
        ELSE IF o.hist_dev > a.tol THEN "composition.depends_on_earlier_requests"
